@@ -38,6 +38,8 @@ class Report:
         self.floors: list[tuple[str, int, int]] = []
         self.selftest: dict | None = None
         self._seen: set = set()
+        self._floor_relevant = True
+        self.only = None  # when set: only these rules are recorded (a group shared by several properties)
         try:
             with open(KNOWN) as fh:
                 self.known = json.load(fh)
@@ -46,6 +48,8 @@ class Report:
 
     # ------------------------------------------------------------------
     def ok(self, rule: str, site: str, slot: str, detail: str = "", extracted: str = ""):
+        if self.only is not None and rule not in self.only:
+            return
         key = (rule, site, slot, "discharged", detail)
         if key in self._seen:
             return
@@ -55,6 +59,8 @@ class Report:
 
     def violation(self, rule: str, site: str, slot: str, detail: str, extracted: str = "", required: str = "",
                   function: str = ""):
+        if self.only is not None and rule not in self.only:
+            return
         rec = {"rule": rule, "site": site, "slot": slot, "status": "violated", "detail": detail,
                "extracted": extracted, "required": required, "function": function or ":".join(site.split(":")[:2])}
         key = (rule, site, slot, "violated", extracted)
@@ -85,6 +91,8 @@ class Report:
         """Instance floor: a rule that binds fewer instances than confirmed by hand is analysis-broken."""
         from .front import AnalysisError
 
+        if self.only is not None and not self._floor_relevant:
+            return
         self.floors.append((what, found, minimum))
 
     def absorb_stats(self, interp):
